@@ -23,8 +23,23 @@ void one_case(Ctx &c) {
   int hi0 = -1;
   if (c.param == 1) { hi0 = (int)w.objs.size(); w.add_domain(0xA100, 0, c.t.biased(1, 1200, MARKS, 8), true, true, (uint32_t)iv.next()); w.add_string(0xA101, 0, c.t.biased(1, 300, MARKS, 4), (uint32_t)iv.next());
     w.add_int(0xA200, 1, 4, false, true, true, false, (uint32_t)iv.next()); w.add_int(0xFFFE, 0, 1, true, false, true, true, (uint32_t)iv.next()); w.add_domain(0x9000, 0, 5 + c.t.below(30), true, false, (uint32_t)iv.next()); }
+  // ... and (same mode) the SDO client records 1280h.. with COB-ID entries of type CO_TSDO_ID, still switched off: the application may prepare its client
+  // (write a COB-ID that keeps it off) between any two frames of an upload
+  if (c.param == 1) for (int k = 0; k < CO_CSDO_N; k++) {
+    s.add(CO_KEY(0x1280 + k, 0, CO_OBJ_D___R_), CO_TUNSIGNED8, 3);
+    s.add(CO_KEY(0x1280 + k, 1, CO_OBJ_____RW), CO_TSDO_ID, (CO_DATA)s.var<uint32_t>("128x:1", 0x80000000u));
+    s.add(CO_KEY(0x1280 + k, 2, CO_OBJ_____RW), CO_TSDO_ID, (CO_DATA)s.var<uint32_t>("128x:2", 0x80000000u));
+    s.add(CO_KEY(0x1280 + k, 3, CO_OBJ_____RW), CO_TUNSIGNED8, (CO_DATA)s.var<uint8_t>("128x:3", (uint8_t)(0x20 + k)));
+  }
   w.finish();
   SdoClient cl(s, w.req[0], w.rsp[0]);
+  int client_writes = 0;
+  if (c.param == 1) cl.between = [&]() {
+    if (!c.t.chance(36)) return;
+    int k = CO_CSDO_N > 1 ? (int)c.t.below(2) : 0; uint8_t sub = (uint8_t)(1 + c.t.below(2)); uint32_t v = 0x80000000u | ((sub == 1 ? 0x600u : 0x580u) + 0x20 + c.t.below(4));
+    s.api_begin(); CO_ERR e = CODictWrLong(&s.node->Dict, CO_DEV(0x1280 + k, sub), v); s.api_end("CODictWrLong");
+    CHECK(c, e == CO_ERR_NONE, "harness", "CODictWrLong(%04Xh:%u, %08X) failed with %d", 0x1280 + k, sub, v, (int)e);
+    VLOG(c, "  (the application writes %08X to %04Xh:%u - its SDO client stays switched off)", v, 0x1280 + k, sub); client_writes++; };
 #if CO_SSDO_N > 1
   // build n2: a second client uses the second server between a sub-block and its acknowledge (the servers share one transfer buffer array):
   // both uploads must deliver their object's bytes
@@ -64,6 +79,7 @@ void one_case(Ctx &c) {
     for (size_t i = 0; i < want.size(); i++)
       CHECK(c, r.data[i] == want[i], "ul-data", "%s upload of %04X:%02X (size %zu, %d partial acknowledges, %d block-size changes): byte %zu is %02X, the object holds %02X", mode, o.idx, o.sub, want.size(),
             r.partial_acks, r.blksize_changes, i, r.data[i], want[i]);
+    if (client_writes) { size_t off = s.ndict * 8; for (auto &b : s.blocks) { if (!b.storage) continue; if (b.name.rfind("128x", 0) == 0) memcpy(&before[off], b.p, b.n); off += b.n; } }   // what the application wrote to its own client record meanwhile
     std::string d = s.diff_snapshot(before, s.snapshot());
     CHECK(c, d.empty(), "ul-object-unchanged", "%s upload of %04X:%02X changed object storage: %s", mode, o.idx, o.sub, d.c_str());
     if (r.segments >= 2 || r.partial_acks > 0 || r.blksize_changes > 0) nt = true;
@@ -77,6 +93,7 @@ void one_case(Ctx &c) {
 #if CO_SSDO_N > 1
   if (cross) c.cls("second-server-used-between-block-and-acknowledge");
 #endif
+  if (client_writes) c.cls("application-prepared-its-sdo-client-between-two-frames");
   c.nontrivial = nt;
 }
 
